@@ -10,6 +10,14 @@ HERE = os.path.dirname(os.path.dirname(os.path.abspath(__file__)))
 BEGIN, END = '<!-- SEEDED-BEGIN -->', '<!-- SEEDED-END -->'
 
 OUT_OF_SCOPE = {
+    'C04-9': 'not a violation of C04 (nor of C06): it makes whole-number floats of 1e15 and more join under & as their digits '
+             'instead of Python\'s float spelling - which is what C06 asks for ("integers as their digits"); the bound of 1e15 in '
+             'the repaired library was arbitrary and has since been moved to 2^53, beyond which nothing is demanded',
+    'C13-9': 'not a violation of the statement: it refuses date TEXT longer than 32 characters after stripping, i.e. long-form '
+             'English spellings ("Wednesday, 1 September 2021 00:00"); which spellings count as date text is fixed by no statement '
+             '(C13 speaks of date-times and serials, C14 of ISO text); blank-padded ISO text of any length is checked by c06.scale',
+    'C19-10': 'not a violation of C19: the label helpers are untouched; the change makes the lexer skip characters it has no token '
+              'for ("A1?", "@A1" evaluate as A1) - which characters the formula language rejects is fixed by no statement',
     'C19-8': 'not a violation of the statement (same situation as C10-1): for a range whose corners share a row or column it '
              'moves a $ marker from one corner to the other; coordinates and labels of both corners stay right, and the '
              'statements fix marker fidelity for single cells and for label decomposition, not for range corners on ties',
